@@ -37,6 +37,13 @@ ADDABLE_RESOLVE_ONLY = (
 )
 BASE_NAMES = ("collections.OrderedDict", "collections.defaultdict")
 NEVER = ("verif_sink.sink",)
+# protocol-4 qualified names: a member of a permitted global is a different global, and is not
+# in the allowlist (resolved through STACK_GLOBAL, never called)
+QUALIFIED = {
+    "collections.OrderedDict.fromkeys": ("collections", "OrderedDict.fromkeys"),
+    "collections.Counter.most_common": ("collections", "Counter.most_common"),
+    "fractions.Fraction.from_float": ("fractions", "Fraction.from_float"),
+}
 ENTRY = ("pickle.load", "pickle.loads", "_pickle.load", "_pickle.loads")
 _SNAP = {}
 
@@ -64,6 +71,10 @@ def restore_all():
 
 
 def probe_bytes(dotted):
+    if dotted in QUALIFIED:
+        module, name = QUALIFIED[dotted]
+        return (b"\x80\x04\x8c" + bytes([len(module)]) + module.encode() + b"\x8c" + bytes([len(name)])
+                + name.encode() + b"\x93.")  # fmt: skip
     module, name = dotted.rsplit(".", 1)
     if dotted in ADDABLE_RESOLVE_ONLY:
         return f"c{module}\n{name}\n.".encode()
@@ -211,7 +222,7 @@ def _machine(res, holder):
     from hypothesis.stateful import RuleBasedStateMachine, rule
 
     adds = st.lists(st.sampled_from(ADDABLE + ADDABLE + ADDABLE_RESOLVE_ONLY), max_size=3, unique=True).map(tuple)
-    names = st.sampled_from(BASE_NAMES + ADDABLE + ADDABLE + NEVER + ADDABLE_RESOLVE_ONLY)
+    names = st.sampled_from(BASE_NAMES + ADDABLE + ADDABLE + NEVER + ADDABLE_RESOLVE_ONLY + tuple(QUALIFIED))
 
     class Env(RuleBasedStateMachine):
         def __init__(self):
